@@ -216,7 +216,7 @@ def jobs_c01(tier, seed):
     q = tier == 'quick'
     return [
         dict(name='adopt-table', shards=8 if q else 14, driver=['adopt-table', '-n', '4000' if q else '0', '-seed', str(seed)]),
-        rnd('collision-atomic', 'collision,handover-2rev,handover-3rev,delegated-handover,local-to-delegated', 'collision', 'atomic',
+        rnd('collision-atomic', 'collision,handover-2rev,handover-3rev,delegated-handover,delegated-handover-recreated,cluster-delegated-handover,local-to-delegated', 'collision', 'atomic',
             120 if q else 1500, 50, seed, 4 if q else 12),
     ]
 
